@@ -99,3 +99,271 @@ class MakeLeaf(MakeAtom):
 class MakeNone(MakeAtom):
     name = 'optree::PyTreeSpec::MakeNone'
     leaf = False
+
+
+# ======================================================================================================================
+# treespec_from_collection (C08, C15, C16)
+
+from ..cxx.symex import Unsupported, as_bool  # noqa: E402
+from .dictorder import OmegaMixin  # noqa: E402
+
+off = z3.Function('children_offset', Int, Int)          # ghost: number of nodes of the first k child treespecs
+snl = z3.Function('children_leaves', Int, Int)          # ghost: number of leaves of the first k child treespecs
+
+
+@contract
+class MakeFromCollectionImpl(OmegaMixin, Contract):
+    """treespec_from_collection(obj): obj is classified once (GetKind); its children must all be treespecs with the given
+    none_is_leaf and at most one distinct non-empty namespace (compatible with the given one).  The result is the
+    concatenation of the children's traversals, in order, followed by one root node whose kind / registration are the
+    classification of obj, arity = number of children, num_nodes = total + 1, num_leaves = sum of the children's (1 for a
+    leaf); none_is_leaf as given; the namespace rule of the property text.  The error indicator is clear on return.
+    Every PyTreeSpec object that exists is well-formed (A-WF-EXT): non-empty, root.num_nodes = its length."""
+    name = 'optree::PyTreeSpec::MakeFromCollectionImpl'
+    static = True
+    this_is_spec = False
+    props = ('C08', 'C15', 'C16')
+    template_instances = [{'NoneIsLeaf': False}, {'NoneIsLeaf': True}]
+
+    def __init__(self):
+        def counted(var):
+            return Loop(lambda cx: [('i-range', z3.And(0 <= cx.var(var), cx.var(var) <= cx.var('node').get('arity'))),
+                                    ('one-child-per-index', cx.obj(cx.var('children')).len == cx.var(var))],
+                        decreases=lambda cx: cx.var('node').get('arity') - cx.var(var))
+        keys = Loop(lambda cx: [('key-index-range', z3.And(0 <= cx.var('key__idx'), cx.var('key__idx') <= M.py_len(cx.var('keys').ref))),
+                                ('one-child-per-key', cx.obj(cx.var('children')).len == cx.var('key__idx')),
+                                ('arity-is-the-number-of-keys', cx.var('node').get('arity') == M.py_len(cx.var('keys').ref))],
+                    index='key__idx')
+        custom = Loop(lambda cx: [('child-index-nonneg', 0 <= cx.var('child__idx')),
+                                  ('arity-counts-the-children', z3.And(cx.var('node').get('arity') == cx.var('child__idx'),
+                                                                       cx.obj(cx.var('children')).len == cx.var('child__idx'))),
+                                  ('node-keeps-the-metadata-and-has-no-entries-yet',
+                                   z3.And(cx.var('node').get('node_data') == M.py_item(self.as_tuple(cx.st.ghost['flatten_result']), 1),
+                                          cx.var('node').get('node_entries') == NULL))],
+                      index='child__idx', seq_len=lambda eng, st, rng: M.iter_len(rng.ref))
+        self.loops = {0: Loop(self.cast_inv, index='child__idx'), 1: Loop(self.ns_inv, index='treespec__idx'),
+                      2: Loop(self.cast_inv, index='child__idx'), 3: Loop(self.ns_inv, index='treespec__idx'),
+                      4: counted('i'), 5: counted('i'), 6: keys, 7: counted('i'), 8: counted('i'), 9: custom,
+                      10: Loop(self.concat_inv, index='treespec__idx', hints=self.concat_hints)}
+        for lp in self.loops.values():
+            lp.inv = (lambda inner: lambda cx: inner(cx) + self.keeps_classification(cx))(lp.inv)
+
+    def keeps_classification(self, cx):
+        cl = cx.st.ghost.get('classified')
+        node = cx.var('node')
+        return [('node-keeps-its-classification', z3.And(node.get('kind') == cl[0], node.get('custom') == cl[1]))] if cl else []
+
+    # -- verify_children, first loop: every child is a PyTreeSpec and is copied into treespecs in order --------------------
+    def cast_inv(self, cx):
+        ch, ts = cx.obj(cx.var('children')), cx.obj(cx.var('treespecs'))
+        idx = cx.var('child__idx')
+        isi = z3.Function('py_isinstance_PyTreeSpec', Ref, Bool)
+        j = z3.Int('j!mc')
+        return [('index-range', z3.And(0 <= idx, idx <= ch.len)),
+                ('one-treespec-per-child-so-far', ts.len == idx),
+                ('treespec-k-is-child-k', forall([j], z3.Implies(z3.And(0 <= j, j < idx),
+                                                                 z3.And(z3.Select(ts.arr, j) == z3.Select(ch.arr, j),
+                                                                        isi(z3.Select(ch.arr, j)))), patterns=[z3.Select(ts.arr, j)]))]
+
+    # -- verify_children, second loop: flags and namespaces of the children ---------------------------------------------
+    def ns_inv(self, cx):
+        ts = cx.obj(cx.var('treespecs'))
+        idx = cx.var('treespec__idx')
+        common = cx.var('common_registry_namespace')
+        nil = cx.eng.template_env.get('NoneIsLeaf', z3.BoolVal(False))
+        j = z3.Int('j!ns')
+        e = lambda jj: z3.Select(ts.arr, jj)
+        return [('index-range', z3.And(0 <= idx, idx <= ts.len)),
+                ('children-so-far-have-the-given-none_is_leaf', forall([j], z3.Implies(z3.And(0 <= j, j < idx), M.ext_spec_nil(e(j)) == nil),
+                                                                       patterns=[M.ext_spec_nil(e(j))])),
+                ('children-so-far-have-no-namespace-or-the-common-one',
+                 forall([j], z3.Implies(z3.And(0 <= j, j < idx), z3.Or(M.ext_spec_ns(e(j)) == EMPTY, M.ext_spec_ns(e(j)) == common)),
+                        patterns=[M.ext_spec_ns(e(j))])),
+                ('a-common-namespace-is-the-namespace-of-some-child-so-far',
+                 z3.Or(common == EMPTY, z3.Exists([j], z3.And(0 <= j, j < idx, M.ext_spec_ns(e(j)) == common)))),
+                ('no-common-namespace-means-none-so-far',
+                 forall([j], z3.Implies(z3.And(0 <= j, j < idx, common == EMPTY), M.ext_spec_ns(e(j)) == EMPTY),
+                        patterns=[M.ext_spec_ns(e(j))]))]
+
+    # -- final loop: the children's traversals are concatenated in order ---------------------------------------------------
+    def concat_inv(self, cx):
+        ts = cx.obj(cx.var('treespecs'))
+        idx = cx.var('treespec__idx')
+        out = cx.st.heap[cx.st.heap[cx.var('out').oid].trav]
+        e = lambda jj: z3.Select(ts.arr, jj)
+        base = z3.If(cx.var('node').get('kind') == K['Leaf'], 1, 0)
+        k, j = z3.Ints('k!cc j!cc')
+        inv = [('index-range', z3.And(0 <= idx, idx <= ts.len)),
+               ('nodes-so-far', out.len == off(idx)),
+               ('leaves-so-far', cx.var('num_leaves') == base + snl(idx)),
+               ('offsets-are-ordered', forall([k], z3.Implies(z3.And(0 <= k, k < idx),
+                                                              z3.And(off(k) >= 0, off(k) + M.ext_spec_len(e(k)) <= off(idx))),
+                                              patterns=[off(k)]))]
+        for f in M.NODE_FIELDS:
+            inv.append((f'child-traversals-copied-in-order:{f}',
+                        forall([k, j], z3.Implies(z3.And(0 <= k, k < idx, 0 <= j, j < M.ext_spec_len(e(k))),
+                                                  out.sel(f, off(k) + j) == z3.Select(M.ext_spec_arr[f](e(k)), j)),
+                               patterns=[z3.Select(M.ext_spec_arr[f](e(k)), j)])))
+        return inv
+
+    def concat_hints(self, cx):
+        ts = cx.obj(cx.var('treespecs'))
+        idx = cx.var('treespec__idx')
+        r = z3.Select(ts.arr, idx)
+        L = M.ext_spec_len(r)
+        return [('offset-step', z3.Implies(z3.And(0 <= idx, idx < ts.len), off(idx + 1) == off(idx) + L), 'instance'),
+                ('leaves-step', z3.Implies(z3.And(0 <= idx, idx < ts.len),
+                                           snl(idx + 1) == snl(idx) + z3.Select(M.ext_spec_arr['num_leaves'](r), L - 1)), 'instance')]
+
+    def setup(self, eng, st, fn):
+        self.setup_omega(eng, st) if hasattr(self, 'setup_omega') else None
+        cx = super().setup(eng, st, fn)
+        r = z3.Const('r!ext', Ref)
+        isi = z3.Function('py_isinstance_PyTreeSpec', Ref, Bool)
+        nn, nl = M.ext_spec_arr['num_nodes'], M.ext_spec_arr['num_leaves']
+        st.facts.append(z3.ForAll([r], z3.Implies(isi(r), z3.And(M.ext_spec_len(r) >= 1,
+                                                                  z3.Select(nn(r), M.ext_spec_len(r) - 1) == M.ext_spec_len(r),
+                                                                  z3.Select(nl(r), M.ext_spec_len(r) - 1) >= 0)),
+                                  patterns=[M.ext_spec_len(r)]))
+        st.facts += [off(z3.IntVal(0)) == 0, snl(z3.IntVal(0)) == 0]
+        st.ghost['pyerr'] = z3.BoolVal(False)
+        return cx
+
+    def call_hook(self, eng, st, name, args_n, n):
+        if name == 'GetKind':
+            line = n.get('line')
+            eng.may_call_python(st, 'class predicates (GetKind)', line)
+            k, c = fresh('kind', Int), fresh('custom', Ref)
+            nil = eng.template_env.get('NoneIsLeaf', z3.BoolVal(False))
+            st.pc.append(z3.And(k >= 0, k <= 10, (k == K['Custom']) == (c != NULL), z3.Implies(nil, k != K['None']),
+                                z3.Implies(c != NULL, z3.And(M.reg_type(c) != NULL, M.reg_pet(c) != NULL))))
+            s2, p = eng.place(args_n[1], st)
+            eng.write_place(s2, p, c)
+            s2.ghost['classified'] = (k, c)
+            return [(s2, k)]
+        return None
+
+    @staticmethod
+    def as_tuple(x):
+        return z3.If(M.py_is_tuple(x), x, z3.Function('py_convert_tuple', Ref, Ref)(x))
+
+    def cast_spec(self, eng, st, o):
+        return o          # a treespec copied from an existing object is identified by that object
+
+    def on_python_result(self, eng, st, f, args, r, n):
+        st.ghost['flatten_result'] = r.ref
+
+    def raises(self, cx):
+        return {'pybind11::value_error': None, 'std::runtime_error': None, 'pybind11::error_already_set': None,
+                'pybind11::cast_error': None}
+
+    def post(self, cx, ret):
+        return []
+
+    def at_return(self, cx, ret):
+        spec = cx.st.heap[ret.oid]
+        t = cx.st.heap[spec.trav]
+        last = t.len - 1
+        k, c = cx.st.ghost['classified']
+        nil = cx.eng.template_env.get('NoneIsLeaf', z3.BoolVal(False))
+        ts = cx.obj(cx.var('treespecs'))
+        ch = cx.obj(cx.var('children'))
+        n = ts.len
+        e = lambda jj: z3.Select(ts.arr, jj)
+        given = cx.old('registry_namespace')
+        kk, j = z3.Ints('k!mp j!mp')
+        base = z3.If(k == K['Leaf'], 1, 0)
+        out = [('root-node-is-last', t.len >= 1),
+               ('root-kind-is-the-classification-of-the-object', t.sel('kind', last) == k),
+               ('root-registration-is-the-classification-of-the-object', t.sel('custom', last) == c),
+               ('one-treespec-per-child', n == ch.len),
+               ('root-arity-is-the-number-of-children', t.sel('arity', last) == n),
+               ('root-num_nodes-is-the-total', z3.And(t.sel('num_nodes', last) == t.len, t.len == off(n) + 1)),
+               ('root-num_leaves-is-the-sum-of-the-childrens-leaves', t.sel('num_leaves', last) == base + snl(n)),
+               ('records-none_is_leaf', spec.nil == nil),
+               ('children-have-the-same-none_is_leaf', forall([kk], z3.Implies(z3.And(0 <= kk, kk < n), M.ext_spec_nil(e(kk)) == nil))),
+               ('namespace-of-the-children-or-else-the-given-one-for-custom-nodes',
+                forall([kk], z3.Implies(z3.And(0 <= kk, kk < n, M.ext_spec_ns(e(kk)) != EMPTY),
+                                        z3.And(spec.ns == M.ext_spec_ns(e(kk)), z3.Or(given == EMPTY, given == spec.ns))))),
+               ('without-namespaced-children:given-namespace-only-for-custom-nodes-(and-childless-leaf-or-None)',
+                z3.Implies(forall([kk], z3.Implies(z3.And(0 <= kk, kk < n), M.ext_spec_ns(e(kk)) == EMPTY)),
+                           spec.ns == z3.If(z3.Or(k == K['Custom'], k == K['Leaf'], k == K['None']), given, EMPTY))),
+               ('error-indicator-clear-on-return', z3.Not(cx.st.ghost['pyerr']))]
+        # payload of the root node
+        as_tuple = lambda x: z3.If(M.py_is_tuple(x), x, z3.Function('py_convert_tuple', Ref, Ref)(x))
+        h = cx.old('handle').ref
+        out.append(('namedtuple-or-structseq-root-records-the-class',
+                    z3.Implies(z3.Or(k == K['NamedTuple'], k == K['StructSequence']), t.sel('node_data', last) == M.py_type(h))))
+        fr = cx.st.ghost.get('flatten_result')
+        if fr is not None:
+            T = as_tuple(fr)
+            ent = M.py_item(T, 2)
+            has_entries = z3.And(M.py_len(T) == 3, ent != PYNONE)
+            out += [('custom-root-records-the-metadata-of-its-flatten-result', z3.Implies(k == K['Custom'], t.sel('node_data', last) == M.py_item(T, 1))),
+                    ('custom-root-records-the-path-entries-of-its-flatten-result',
+                     z3.Implies(k == K['Custom'], t.sel('node_entries', last) == z3.If(has_entries, as_tuple(ent), NULL)))]
+        else:
+            out.append(('non-custom-root-has-no-path-entries', t.sel('node_entries', last) == NULL))
+        for f in M.NODE_FIELDS:
+            out.append((f'child-traversals-concatenated-in-order:{f}',
+                        forall([kk, j], z3.Implies(z3.And(0 <= kk, kk < n, 0 <= j, j < M.ext_spec_len(e(kk))),
+                                                   t.sel(f, off(kk) + j) == z3.Select(M.ext_spec_arr[f](e(kk)), j)),
+                               patterns=[z3.Select(M.ext_spec_arr[f](e(kk)), j)])))
+        return out
+
+    def frame(self, cx, ret):
+        return []
+
+    def frame_exc(self, cx):
+        return []
+
+
+def _mfc_apply(self, eng, st, this, args, n):
+    """Call-site summary of MakeFromCollectionImpl<v>: may run Python, returns a new treespec; the dispatcher's contract records
+    instance and arguments."""
+    from ..cxx.calls import new_spec
+    line = n.get('line')
+    eng.may_call_python(st, 'user callbacks in MakeFromCollectionImpl', line)
+    s_exc = st.clone()
+    eng.throw(s_exc, 'pybind11::error_already_set', line, 'from a callback / a rejected collection')
+    r = new_spec(st)
+    nil = eng.template_env.get('NoneIsLeaf', z3.BoolVal(False))
+    if 'impl_calls' in st.ghost:
+        st.ghost['impl_calls'] = st.ghost['impl_calls'] + ((nil, args, r),)
+    return [(st, r)]
+
+
+MakeFromCollectionImpl.apply = _mfc_apply
+
+
+@contract
+class MakeFromCollection(Contract):
+    name = 'optree::PyTreeSpec::MakeFromCollection'
+    static = True
+    this_is_spec = False
+    props = ('C08',)
+
+    def setup(self, eng, st, fn):
+        cx = super().setup(eng, st, fn)
+        st.ghost['impl_calls'] = ()
+        return cx
+
+    def raises(self, cx):
+        return {'pybind11::error_already_set': None}
+
+    def post(self, cx, ret):
+        calls = cx.st.ghost['impl_calls']
+        out = [('delegates-exactly-once', z3.BoolVal(len(calls) == 1))]
+        if len(calls) == 1:
+            nil, args, r = calls[0]
+            out += [('instance-NoneIsLeaf-is-none_is_leaf', nil == cx.old('none_is_leaf')),
+                    ('forwards-the-object', args[0].ref == cx.old('object').ref),
+                    ('forwards-the-namespace', args[1] == cx.old('registry_namespace')),
+                    ('returns-its-result', z3.BoolVal(ret.oid == r.oid))]
+        return out
+
+    def frame(self, cx, ret):
+        return []
+
+    def frame_exc(self, cx):
+        return []
